@@ -14,10 +14,10 @@ pub type CArg = rustpython_parser::ast::ArgWithDefault;
 // ---- abstract inputs -----------------------------------------------------------------------------------------
 /// `func_name.as_str().starts_with("test_")` (string code: the text of the name decides, nothing else)
 pub uninterp spec fn is_test_name(name: Seq<char>) -> bool;
-/// find_signature_end_line (resolver.rs ~1177: AST ranges of the arguments / return annotation / first body statement,
-/// then a text scan for a line ending in ':'): the 1-based line on which the signature ends, left abstract
-pub uninterp spec fn sig_end_line(func_start_line: usize, args: CArguments, returns: Option<Box<Expr>>, body: Seq<Stmt>,
-                                  content: Seq<char>, li: Seq<usize>) -> usize;
+/// find_signature_end_line (resolver.rs ~1183): the 1-based line on which the signature ends = op_sig_end
+/// (prelude/sigend_spec.rs), PROVED for the real body in unit sig_end and imported here by `//@stub sig_end`
+pub open spec fn sig_end_line(func_start_line: usize, args: CArguments, returns: Option<Box<Expr>>, body: Seq<Stmt>,
+                              content: Seq<char>, li: Seq<usize>) -> int { op_sig_end(func_start_line, args, returns, body, content, li) }
 /// 1-based line of a byte offset: what get_line_from_offset is PROVED to return (unit line_index)
 pub open spec fn lno(li: Seq<usize>, off: usize) -> int { op_line(ints(li), off as int) }
 
